@@ -27,10 +27,11 @@ package bloblru
 // total) that turns a hang into INCONCLUSIVE (never a verdict).
 
 import (
-	"bytes"
 	"encoding/binary"
 	"fmt"
+	"os"
 	"runtime"
+	"strings"
 	"sync"
 	"sync/atomic"
 	"testing"
@@ -92,8 +93,9 @@ type c47Kept struct {
 	blob    []byte
 }
 
-func c47Body(idx int, version uint32, n int) []byte {
-	b := make([]byte, n)
+// c47Fill writes the self-describing content of (idx, version) into b.
+func c47Fill(b []byte, idx int, version uint32) {
+	n := len(b)
 	x := uint64(idx+1)*0x9E3779B97F4A7C15 ^ uint64(version)*0xD6E8FEB86659FD93
 	i := 16
 	for ; i+8 <= n; i += 8 {
@@ -112,7 +114,34 @@ func c47Body(idx int, version uint32, n int) []byte {
 	binary.LittleEndian.PutUint32(b[4:], uint32(idx))
 	binary.LittleEndian.PutUint32(b[8:], version)
 	binary.LittleEndian.PutUint32(b[12:], uint32(n))
-	return b
+}
+
+// c47Check reports whether b is exactly the content of (idx, version) with length len(b).
+func c47Check(b []byte, idx int, version uint32) bool {
+	n := len(b)
+	if n < 16 || binary.LittleEndian.Uint32(b) != c47Magic || binary.LittleEndian.Uint32(b[4:]) != uint32(idx) ||
+		binary.LittleEndian.Uint32(b[8:]) != version || binary.LittleEndian.Uint32(b[12:]) != uint32(n) {
+		return false
+	}
+	x := uint64(idx+1)*0x9E3779B97F4A7C15 ^ uint64(version)*0xD6E8FEB86659FD93
+	i := 16
+	for ; i+8 <= n; i += 8 {
+		x ^= x << 13
+		x ^= x >> 7
+		x ^= x << 17
+		if binary.LittleEndian.Uint64(b[i:]) != x {
+			return false
+		}
+	}
+	for ; i < n; i++ {
+		x ^= x << 13
+		x ^= x >> 7
+		x ^= x << 17
+		if b[i] != byte(x) {
+			return false
+		}
+	}
+	return true
 }
 
 func (w *c47World) violation(key, format string, a ...any) {
@@ -156,11 +185,11 @@ func (w *c47World) call(x *c47ID, mode int, spin int, entered chan<- struct{}, g
 		var err error
 		switch mode {
 		case 0:
-			b := c47Body(x.idx, inv.version, x.size)
 			blob = make([]byte, x.size, x.size+x.extra)
-			copy(blob, b)
+			c47Fill(blob, x.idx, inv.version)
 		case 1:
-			blob = c47Body(x.idx, inv.version, x.size) // self-describing, so a leak of it is recognisable
+			blob = make([]byte, x.size) // self-describing, so a leak of it is recognisable
+			c47Fill(blob, x.idx, inv.version)
 			err = &c47Err{x.idx, inv.version}
 		default:
 			err = &c47Err{x.idx, inv.version}
@@ -227,12 +256,12 @@ func (w *c47World) call(x *c47ID, mode int, spin int, entered chan<- struct{}, g
 		w.violation("value-from-the-future", "GetOrCompute(id #%d) returned version %d before that computation finished", x.idx, gv)
 		return
 	}
-	if gn != x.size || len(blob) != x.size || !bytes.Equal(blob, c47Body(x.idx, gv, x.size)) {
+	if gn != x.size || len(blob) != x.size || !c47Check(blob, x.idx, gv) {
 		w.violation("altered-value-returned", "GetOrCompute(id #%d) returned version %d with len %d (want %d) / altered bytes", x.idx, gv, len(blob), x.size)
 		return
 	}
 	w.mu.Lock()
-	if len(w.retained) < 2000 && len(blob) <= 32<<10 {
+	if len(w.retained) < 2000 && len(blob) <= 8<<10 {
 		w.retained = append(w.retained, c47Kept{x.idx, gv, blob})
 	}
 	w.mu.Unlock()
@@ -319,24 +348,24 @@ func (w *c47World) pick(rng *kit.RNG) *c47ID {
 
 func c47Case(rec *kit.Rec, ci int) (done bool) {
 	rng := rec.RNG("case", ci)
-	procs := []int{1, 1, 2, 4}[rng.Intn(4)] // more Ps than that mostly adds cross-thread wake-up latency on a shared machine
+	procs := []int{1, 2, 4, 8}[rng.Intn(4)] // more Ps than that mostly adds cross-thread wake-up latency on a shared machine
 	if rec.Env.Thorough() && ci%16 == 5 {
-		procs = 8
+		procs = 16
 	}
 	nIDs := rng.Range(4, 64)
-	G := rng.Range(2, 16)
-	ops := rng.Range(20, 80)
+	G := rng.Range(2, 32)
+	ops := rng.Range(20, 100)
 	failPct := []int{0, 0, 5, 20, 50}[rng.Intn(5)]
 	var size int
 	switch rng.Intn(4) {
 	case 0:
 		size = rng.Range(overhead, 4*overhead) // holds 1..4 tiny entries at most
 	case 1:
-		size = rng.Range(2000, 20000)
+		size = rng.Range(1000, 4000)
 	case 2:
-		size = rng.Range(20000, 60000)
+		size = rng.Range(4000, 12000)
 	default:
-		size = rng.Range(60000, 150000)
+		size = rng.Range(12000, 32000)
 	}
 	w := &c47World{rec: rec, size: size}
 	w.desc = map[string]any{"case": ci, "gomaxprocs": procs, "ids": nIDs, "goroutines": G, "ops_per_goroutine": ops, "fail_pct": failPct, "cache_size": size}
@@ -357,8 +386,8 @@ func c47Case(rec *kit.Rec, ci int) (done bool) {
 		if x.size < 16 {
 			x.size = 16
 		}
-		if x.size > 200000 {
-			x.size = 200000
+		if x.size > 65536 {
+			x.size = 65536
 		}
 		if rng.Chance(1, 3) {
 			x.extra = rng.Range(1, 1+x.size/2) // cap > len
@@ -368,6 +397,9 @@ func c47Case(rec *kit.Rec, ci int) (done bool) {
 	old := runtime.GOMAXPROCS(procs)
 	defer runtime.GOMAXPROCS(old)
 	w.c = New(size)
+	if os.Getenv("VERIF_C47_ONLY") != "" {
+		fmt.Fprintf(os.Stderr, "case %d: %v\n", ci, w.desc)
+	}
 
 	finished := make(chan struct{})
 	go func() {
@@ -541,7 +573,7 @@ func c47Workload(w *c47World, rng *kit.RNG, G, ops, failPct int) {
 	w.quiescent("after the concurrent phase")
 	// returned buffers must still be what they were
 	for _, k := range w.retained {
-		if !bytes.Equal(k.blob, c47Body(k.idx, k.version, len(k.blob))) {
+		if !c47Check(k.blob, k.idx, k.version) {
 			w.violation("returned-buffer-overwritten", "a buffer returned earlier for id #%d (version %d) was modified afterwards", k.idx, k.version)
 			break
 		}
@@ -552,10 +584,13 @@ func TestVerifC47(t *testing.T) {
 	rec := kit.Start(t, "C47", "bloblru")
 	defer rec.Finish()
 	env := rec.Env
-	n := env.Pick(320, 12000)
+	n := env.Pick(500, 16000)
 	for ci := 0; ci < n; ci++ {
 		if !env.Mine(ci) {
 			continue
+		}
+		if only := os.Getenv("VERIF_C47_ONLY"); only != "" && !strings.Contains(","+only+",", fmt.Sprintf(",%d,", ci)) {
+			continue // debugging aid: run selected cases only
 		}
 		t0 := time.Now()
 		ok := c47Case(rec, ci)
